@@ -189,6 +189,21 @@ def load_known():
         return json.load(f).get("findings", [])
 
 
+def explained_by_model(j):
+    """For findings about the NOT optimised engine: the engine-layer model (spec/TauEngine.tla), which
+    transcribes the parser's batching and the solver as they are, must predict what was observed.
+    A change to the code that produces a different wrong result is then not attributed."""
+    info = j.get("info") or {}
+    eng, out = info.get("eng"), info.get("out")
+    if eng in (None, "-", "U"):
+        return False
+    if out in ("T", "F", "M"):
+        return eng == out
+    if out in ("t", "f"):
+        return (eng == "T") == (out == "t")
+    return False
+
+
 def attribute(j, prop, known):
     """A judged event belongs to an open known finding iff the finding is for this property, its
     deviation trigger holds for the case (computed by TauKnown!Devs inside TLC) and the clause
@@ -197,6 +212,8 @@ def attribute(j, prop, known):
         if k.get("status") != "open" or prop not in k.get("properties", []):
             continue
         if k.get("dev") in j.get("devs", []) and j.get("rule") in k.get("rules", []):
+            if k.get("model_explains") and not explained_by_model(j):
+                continue
             return k
     return None
 
@@ -317,6 +334,22 @@ def check(prop, tier, seed):
             if p.returncode != 0:
                 raise ToolError("tvh(ic) run failed: %s" % p.stdout.decode(errors="replace")[-3000:])
             merge_ic(tpath, tpath2)
+        if spec.get("second_process"):
+            # C12: the same cases in ANOTHER process, in the opposite order (so that every case has a
+            # different history behind it); its events join the cases of the first process
+            cpath2 = os.path.join(wd, "cases-rev-%03d.ndjson" % ci)
+            rev = []
+            for c in reversed(part):
+                c2 = dict(c)
+                c2["plan"] = dict(c.get("plan", {}))
+                c2["plan"]["again"] = False
+                rev.append(c2)
+            write_lines(cpath2, rev)
+            tpath2 = os.path.join(wd, "trace-rev-%03d.ndjson" % ci)
+            p, dt2 = run([tvh, "run", cpath2, tpath2], cwd=wd, timeout=1800)
+            if p.returncode != 0:
+                raise ToolError("tvh (second process) run failed: %s" % p.stdout.decode(errors="replace")[-3000:])
+            merge_ic(tpath, tpath2, tag="proc2", load_ev="load2", reverse=True)
         with open(tpath) as f:
             for line in f:
                 events += 1
@@ -411,7 +444,7 @@ def check(prop, tier, seed):
     return 1 if violations else 0
 
 
-def merge_ic(tpath, tpath2):
+def merge_ic(tpath, tpath2, tag="ic", load_ev="icload", reverse=False):
     """C15: append to each case of the default build's trace the events the ignore_case build
     recorded for the same case, as further objects of that case (obj ids shifted)."""
     def chunks(path):
@@ -427,6 +460,8 @@ def merge_ic(tpath, tpath2):
                     out[-1].append(e)
         return out
     a, b = chunks(tpath), chunks(tpath2)
+    if reverse:
+        b = list(reversed(b))
     if len(a) != len(b):
         raise ToolError("the two builds recorded a different number of cases")
     with open(tpath, "w") as f:
@@ -437,14 +472,15 @@ def merge_ic(tpath, tpath2):
             for e in cb[1:]:
                 e = dict(e)
                 if e.get("ev") == "load":
-                    e["ev"] = "icload"
-                elif e.get("ev") == "skip":
+                    e["ev"] = load_ev
+                    e["via"] = tag
+                elif e.get("ev") in ("skip", "load2"):
                     pass
                 else:
                     for key in ("obj", "from"):
                         if key in e:
                             e[key] += nobj
-                e["build"] = "ic"
+                e["build"] = tag
                 f.write(json.dumps(e, separators=(",", ":")) + "\n")
 
 
